@@ -6,6 +6,7 @@ use vharness::*;
 
 mod docsession;
 mod docsync;
+mod format;
 mod script;
 mod trace;
 
@@ -36,6 +37,7 @@ fn main() {
     let summary = match mode.as_str() {
         "script" => script::run(cases, max_fail, &opts),
         "docsync" => docsync::run(cases, max_fail, &opts),
+        "format" => format::run(cases, max_fail, &opts),
         "docsession" => docsession::run_sessions(cases, max_fail, &opts),
         "roundtrip" => docsession::run_roundtrip(cases, max_fail, &opts),
         "trace" => trace::run(cases, opts.get("trace_out").map(|s| s.as_str()).unwrap_or("/verif/out/trace.ndjson"), &opts),
